@@ -93,6 +93,22 @@ def run(tier):
                 items.append(("k", tn['"%s"' % wd] if wd is not None else -1, i + 1, pos, hi))
                 pos = hi + r.randint(0, 2)
             cases.append((e["tid"], items, [], {}))
+    # exhaustive short inputs on the corpus grammars (pure insertions, recoveries right above the start
+    # state, errors in states that still have reductions on `!` pending ...); the first token starts after
+    # position 0 so that the default location is distinguishable from every real one
+    nexh = 0
+    for e in c.ok:
+        g = e["g"]
+        if g.name.startswith("rnd") or e["start"] not in g.min_height():
+            continue
+        tn = {x: i for i, x in enumerate(e["t"]["tnames"])}
+        for w in lrcheck.short_strings(g, 3 if tier == "quick" else 5, cap=(200 if tier == "quick" else 4000)):
+            items, pos = [], 1 + (len(w) % 2)
+            for i, wd in enumerate(w):
+                hi = pos + 1 + (i % 2)
+                items.append(("k", tn['"%s"' % wd], i + 1, pos, hi))
+                pos = hi + ((i + len(w)) % 2)
+            cases.append((e["tid"], items, [], {})); nexh += 1
     dec, nbad = lrcheck.correspond(PROP, rep, c, cases, make_judge(c), "c16")
     lrcheck.report_cert_failures(PROP, rep, c, failing, bool(rep.viol), make_judge(c), r)
     rec = [(x, d) for x, d in zip(cases, dec) if d["kind"] == "ok" and err_nodes(d["tree"])]
@@ -106,8 +122,8 @@ def run(tier):
            "theorems": names, "certificates": {"checked": cobl, "valid": cdis},
            "evaluations": len(cases), "distinct_nontrivial": distinct,
            "rule": "grammars with `!` at several depths (corpus + random) x {lane, lalr[, lr1]}; sentences with 0-3 insert/delete/substitute/swap edits, unknown tokens, "
-                   "random strings; tokens carry gapped spans of width >= 1; non-trivial = Ok result containing at least one error node",
-           "distribution": {"tables": len(c.ok), "recovered": len(rec), "several_error_nodes": multi, "dropped_two_or_more": dropped2,
+                   "random strings; tokens carry gapped spans of width >= 1; plus ALL token strings up to length 3 (quick) / 5 (thorough) on the corpus grammars; non-trivial = Ok result containing at least one error node",
+           "distribution": {"tables": len(c.ok), "exhaustive_short_inputs": nexh, "recovered": len(rec), "several_error_nodes": multi, "dropped_two_or_more": dropped2,
                             "with_popped_symbols": popped, "results": {k: sum(1 for d in dec if d["kind"] == k) for k in ("ok", "err", "panic", "budget")}},
            "samples": [dict(lrcheck.case_desc(c, x), implementation=d) for x, d in rec[:2]]}
     for s in cov["samples"]:
